@@ -259,11 +259,17 @@ impl DebuggerContext {
                     };
 
                     if contains_rule {
+                        #[cfg(pest_parser_pest_verif)]
+                        verif::point("bp_before_send", || format!("{rule}@{}", pos.pos()));
                         rsender
                             .send(DebuggerEvent::Breakpoint(rule, pos.pos()))
                             .expect(CHANNEL_CLOSED_PANIC);
 
+                        #[cfg(pest_parser_pest_verif)]
+                        verif::point("bp_after_send", String::new);
                         thread::park();
+                        #[cfg(pest_parser_pest_verif)]
+                        verif::point("bp_after_park", String::new);
                     }
                     false
                 }),
@@ -276,7 +282,11 @@ impl DebuggerContext {
                     .expect(CHANNEL_CLOSED_PANIC),
             };
 
+            #[cfg(pest_parser_pest_verif)]
+            verif::point("th_final_sent", String::new);
             is_done.store(true, Ordering::SeqCst);
+            #[cfg(pest_parser_pest_verif)]
+            verif::point("th_exit", String::new);
         })
     }
 
@@ -305,13 +315,23 @@ impl DebuggerContext {
     /// This naturally returns errors if the grammar or input haven't been loaded yet etc.
     pub fn run(&mut self, rule: &str, sender: Sender<DebuggerEvent>) -> Result<(), DebuggerError> {
         if let Some(handle) = self.handle.take() {
+            #[cfg(pest_parser_pest_verif)]
+            verif::point("run_has_handle", String::new);
             if !(self.is_done.load(Ordering::Relaxed)) {
+                #[cfg(pest_parser_pest_verif)]
+                verif::point("run_before_flag", String::new);
                 self.is_done.store(true, Ordering::SeqCst);
+                #[cfg(pest_parser_pest_verif)]
+                verif::point("run_after_flag", String::new);
                 handle.thread().unpark();
+                #[cfg(pest_parser_pest_verif)]
+                verif::point("run_after_unpark", String::new);
             }
             handle
                 .join()
                 .map_err(|e| DebuggerError::PreviousRunPanic(format!("{e:?}")))?;
+            #[cfg(pest_parser_pest_verif)]
+            verif::point("run_joined", String::new);
         }
 
         self.is_done.store(false, Ordering::SeqCst);
@@ -340,7 +360,11 @@ impl DebuggerContext {
 
         match self.handle {
             Some(ref handle) => {
+                #[cfg(pest_parser_pest_verif)]
+                verif::point("cont_before_unpark", String::new);
                 handle.thread().unpark();
+                #[cfg(pest_parser_pest_verif)]
+                verif::point("cont_after_unpark", String::new);
                 Ok(())
             }
             None => Err(DebuggerError::RunRuleFirst),
@@ -364,6 +388,80 @@ impl Default for DebuggerContext {
             grammar: None,
             input: None,
             breakpoints: Arc::new(Mutex::new(HashSet::new())),
+        }
+    }
+}
+
+/// Monitoring hooks (only with `--cfg pest_parser_pest_verif`): a globally sequenced log of
+/// named points on both threads, and seeded delays injected at those points, which all lie
+/// between synchronisation operations (never inside the breakpoint lock).
+#[cfg(pest_parser_pest_verif)]
+#[allow(missing_docs)]
+pub mod verif {
+    use std::sync::atomic::{AtomicU64, Ordering};
+    use std::sync::Mutex;
+    use std::time::{Duration, Instant};
+
+    #[derive(Clone, Debug)]
+    pub struct Rec {
+        pub seq: u64,
+        pub thread: String,
+        pub point: &'static str,
+        pub info: String,
+    }
+
+    static SEQ: AtomicU64 = AtomicU64::new(0);
+    static SEED: AtomicU64 = AtomicU64::new(0);
+    static LOG: Mutex<Vec<Rec>> = Mutex::new(Vec::new());
+
+    /// Clears the log and installs the delay plan (`seed == 0`: no delays).
+    pub fn reset(seed: u64) {
+        LOG.lock().unwrap_or_else(|e| e.into_inner()).clear();
+        SEQ.store(0, Ordering::SeqCst);
+        SEED.store(seed, Ordering::SeqCst);
+    }
+
+    pub fn log() -> Vec<Rec> {
+        LOG.lock().unwrap_or_else(|e| e.into_inner()).clone()
+    }
+
+    fn mix(mut z: u64) -> u64 {
+        z = z.wrapping_add(0x9e3779b97f4a7c15);
+        z = (z ^ (z >> 30)).wrapping_mul(0xbf58476d1ce4e5b9);
+        z = (z ^ (z >> 27)).wrapping_mul(0x94d049bb133111eb);
+        z ^ (z >> 31)
+    }
+
+    /// Records a point, then possibly delays the calling thread.
+    pub fn point(point: &'static str, info: impl FnOnce() -> String) {
+        let seq = {
+            // the sequence number is taken under the log's lock so that log order = seq order
+            let mut log = LOG.lock().unwrap_or_else(|e| e.into_inner());
+            let seq = SEQ.fetch_add(1, Ordering::SeqCst);
+            log.push(Rec {
+                seq,
+                thread: format!("{:?}", std::thread::current().id()),
+                point,
+                info: info(),
+            });
+            seq
+        };
+        let seed = SEED.load(Ordering::SeqCst);
+        if seed == 0 {
+            return;
+        }
+        let h = mix(seed ^ mix(seq ^ (point.len() as u64) << 32));
+        match h % 100 {
+            0..=44 => {}
+            45..=64 => std::thread::yield_now(),
+            65..=84 => {
+                let until = Instant::now() + Duration::from_micros(5 + (h >> 8) % 60);
+                while Instant::now() < until {
+                    std::hint::spin_loop();
+                }
+            }
+            85..=96 => std::thread::sleep(Duration::from_micros(50 + (h >> 8) % 300)),
+            _ => std::thread::sleep(Duration::from_micros(1000 + (h >> 8) % 2000)),
         }
     }
 }
